@@ -34,6 +34,8 @@ API = {
     ('qvector::rs_qvector::RSQVector', 'occs_smaller'): {1: 'sym3'},
     ('bitvector::BitVector', 'get'): {1: 'index'},
     ('bitvector::BitVectorMut', 'get'): {1: 'index'},
+    ('bitvector::BitVector', 'get_bits'): {1: 'window'},
+    ('bitvector::BitVectorMut', 'get_bits'): {1: 'window'},
     ('bitvector::rs_narrow::RSNarrow', 'get'): {1: 'index'},
     ('bitvector::rs_narrow::RSNarrow', 'rank1'): {1: 'prefix'},
     ('bitvector::rs_narrow::RSNarrow', 'select1'): {1: 'occ'},
@@ -232,7 +234,7 @@ def mentions(t, p):
     return contains(t, p)
 
 
-def classify(cls, P, atoms, LEN):
+def classify(cls, P, atoms, LEN, extra=None):
     """-> (status, explanation, matched atom strings)"""
     rel = [a for a in atoms if a[0] in ('<', '<=', '==', '!=') and (mentions(a[1], P) or mentions(a[2], P))]
     shown = [fmt_atom(a) for a in rel]
@@ -282,6 +284,32 @@ def classify(cls, P, atoms, LEN):
         if idxs:
             return 'violation', 'table bound found but no `entry(len) != 0` test on the same table', shown
         return 'violation', 'no dominating bound of the symbol index against the code table length', shown
+    if cls == 'window':
+        # P = start, Q = the next parameter = number of bits: P + Q <= LEN, written with or without the sum
+        Q = extra
+        if LEN is None or Q is None:
+            return 'violation', 'no len() summary / length parameter (anchor lost)', shown
+        relq = [a for a in atoms if a[0] in ('<', '<=', '==', '!=') and (mentions(a[1], Q) or mentions(a[2], Q))]
+        shown = [fmt_atom(a) for a in rel + relq]
+        total = norm(('bin', 'Add', P, Q))
+        rest = norm(('bin', 'Sub', LEN, P))
+        for op, a, b in rel + relq:
+            if a == total and b == LEN:
+                if op == '<=':
+                    return 'ok', fmt_atom((op, a, b)), shown
+                return 'violation', 'window bound `%s` rejects a read that ends exactly at the last bit (contract is `<=`)' % fmt_atom((op, a, b)), shown
+        startok = None
+        for op, a, b in rel:
+            if a == P and b == LEN and op in ('<', '<='):
+                startok = op
+        for op, a, b in relq:
+            if a == Q and b == rest and op in ('<', '<='):
+                if startok is None:
+                    return 'violation', '`%s` is compared with `%s` but the start is not bounded by the length first (the subtraction can wrap)' % (show(Q), show(rest)), shown
+                if op == '<=':
+                    return 'ok', '%s %s %s and %s <= %s' % (show(P), startok, show(LEN), show(Q), show(rest)), shown
+                return 'violation', 'window bound `%s` rejects a read that ends exactly at the last bit (contract is `<=`)' % fmt_atom((op, a, b)), shown
+        return 'violation', 'no dominating test that %s + %s stays within %s' % (show(P), show(Q), show(LEN)), shown
     if cls == 'occ':
         for op, a, b in rel:
             if a == P and not mentions(b, P) and op in ('<', '<='):
@@ -390,8 +418,13 @@ def rule_G(FA):
                     elif sk == 'deleg?':
                         st, expl, shown = 'violation', 'answer produced by %s which the rule cannot follow' % show(val), []
                     else:
-                        st, expl, shown = classify(cls, P, atoms, LEN)
-                    inst = Inst('R-G', 'R-G|%s|%s:%s' % (fkey, cls, P[1] if st != 'ok' else P[1]), st, where, expl, props,
+                        extra = param_term(f, pos + 1) if cls == 'window' and pos + 1 < f['argc'] else None
+                        st, expl, shown = classify(cls, P, atoms, LEN, extra)
+                    code = ''
+                    if st != 'ok':
+                        code = '|over-strict' if ('rejects a read' in expl or 'over-strict' in expl or 'largest symbol rejected' in expl) else \
+                            '|under-strict' if ('under-strict' in expl or 'one past' in expl) else '|unguarded' if expl.startswith('no dominating') else '|other'
+                    inst = Inst('R-G', 'R-G|%s|%s:%s%s' % (fkey, cls, P[1], code), st, where, expl, props,
                                 sample={'accept_condition': [fmt_atom(a) for a in atoms], 'class': cls, 'argument': show(P)})
                     if st != 'ok':
                         worst = inst
